@@ -564,6 +564,80 @@ def extract_flags():
                 if any(isinstance(x, ast.Attribute) and x.attr == "_highest_inbound_acked" for x in tg):
                     assigners.append(name)
     flags["stop_using_connection_keeps_watermark"] = sorted(assigners) == ["__attrs_post_init__", "update_ack_watermark"]
+    # C10: records parked on a not-yet-selected connection (`_inbound_record_queue`) are appended at the back by
+    # queue_inbound_record and handed to Manager.got_record from the FRONT by process_inbound_queue
+    from wormhole._dilation import connection as dconn_
+
+    def _meth(cls, name):
+        f = vars(cls)[name]
+        return ast.parse(textwrap.dedent(inspect.getsource(getattr(f, "method", f)))).body[0]
+
+    def _is_queue(n):
+        return isinstance(n, ast.Attribute) and n.attr == "_inbound_record_queue" and isinstance(n.value, ast.Name) and n.value.id == "self"
+    fn_q = _meth(dconn_.DilatedConnectionProtocol, "queue_inbound_record")
+    appends = [n for n in ast.walk(fn_q) if isinstance(n, ast.Call) and isinstance(n.func, ast.Attribute)
+               and n.func.attr == "append" and _is_queue(n.func.value)]
+    other_q = [n for n in ast.walk(fn_q) if isinstance(n, ast.Call) and isinstance(n.func, ast.Attribute)
+               and _is_queue(n.func.value) and n.func.attr != "append"]
+    fn_p = _meth(dconn_.DilatedConnectionProtocol, "process_inbound_queue")
+    body = [st for st in fn_p.body if not (isinstance(st, ast.Expr) and isinstance(st.value, ast.Constant))]
+    fifo = False
+    if len(appends) == 1 and not other_q and len(body) == 1 and isinstance(body[0], ast.While) and _is_queue(body[0].test) \
+            and not body[0].orelse:
+        pops = [n for n in ast.walk(body[0]) if isinstance(n, ast.Call) and isinstance(n.func, ast.Attribute)
+                and _is_queue(n.func.value)]
+        front = (len(pops) == 1 and (
+            (pops[0].func.attr == "pop" and len(pops[0].args) == 1 and isinstance(pops[0].args[0], ast.Constant)
+             and pops[0].args[0].value == 0 and not pops[0].keywords)
+            or (pops[0].func.attr == "popleft" and not pops[0].args and not pops[0].keywords)))
+        # nothing else in the loop touches the queue (no reversed copies, no swaps)
+        others = [n for n in ast.walk(body[0]) if _is_queue(n)]
+        fifo = front and len(others) == 2     # the loop test and the pop
+    init_src = ast.parse(textwrap.dedent(inspect.getsource(dconn_.DilatedConnectionProtocol.__attrs_post_init__))).body[0]
+    inits = [n for n in ast.walk(init_src) if isinstance(n, ast.Assign) and any(_is_queue(t) for t in n.targets)]
+    fifo = fifo and len(inits) == 1 and isinstance(inits[0].value, ast.List) and not inits[0].value.elts
+    flags["dcp_parked_queue_fifo"] = fifo
+    # C10: SubChannel._pending_remote_data / _pending_remote_close / _protocol are PER-INSTANCE state: assigned on
+    # `self` in the (attrs) initialiser from fresh literals, never bound in the class body
+    cls = ast.parse(textwrap.dedent(inspect.getsource(dsub.SubChannel))).body[0]
+    class_level = set()
+    for st in cls.body:
+        targets = []
+        if isinstance(st, ast.Assign):
+            targets = st.targets
+        elif isinstance(st, ast.AnnAssign):
+            targets = [st.target]
+        for t in targets:
+            if isinstance(t, ast.Name):
+                class_level.add(t.id)
+    per_instance = False
+    for st in cls.body:
+        if isinstance(st, ast.FunctionDef) and st.name in ("__attrs_post_init__", "__init__"):
+            got = {}
+            for n in ast.walk(st):
+                if isinstance(n, ast.Assign):
+                    for t in n.targets:
+                        if isinstance(t, ast.Attribute) and isinstance(t.value, ast.Name) and t.value.id == "self":
+                            got[t.attr] = n.value
+            v = got.get("_pending_remote_data")
+            per_instance = (isinstance(v, ast.List) and not v.elts
+                            and isinstance(got.get("_pending_remote_close"), ast.Constant)
+                            and got["_pending_remote_close"].value is False)
+    flags["subchannel_pending_per_instance"] = (per_instance and "_pending_remote_data" not in class_level
+                                                and "_pending_remote_close" not in class_level)
+    # C15: SubChannel.pauseProducing/resumeProducing/stopProducing are plain forwarders: the whole body (docstring
+    # aside) is the single statement `self._manager.subchannel_<x>Producing(self)` — no guard, no early return, so the
+    # request reaches Inbound in every state of the subchannel
+    def _plain_forward(func, callee):
+        fn = ast.parse(textwrap.dedent(inspect.getsource(getattr(func, "method", func)))).body[0]
+        body = [st for st in fn.body
+                if not (isinstance(st, ast.Expr) and isinstance(st.value, ast.Constant) and isinstance(st.value.value, str))]
+        return (len(body) == 1 and isinstance(body[0], ast.Expr) and isinstance(body[0].value, ast.Call)
+                and ast.unparse(body[0].value) == f"self._manager.{callee}(self)")
+    from wormhole._dilation import subchannel as _c15_dsub
+    for verb in ("pause", "resume", "stop"):
+        flags[f"subchannel_{verb}_is_plain_forward"] = _plain_forward(
+            vars(_c15_dsub.SubChannel)[f"{verb}Producing"], f"subchannel_{verb}Producing")
     return flags
 
 
